@@ -203,13 +203,17 @@ claimed["C08"] = (
     "back and destroyed (and every look at a value that is already gone); on every explored history (all 18 storage ids, "
     "every insertion / removal / drain / entry / clear / deletion / maintain / lazy / join-with-drain path, ending with "
     "the world dropped) constructed = handed back + destroyed as multisets, nothing is looked at after it is gone, and "
-    "the values destroyed by each operation equal the specification's. The ledger equation itself is proved operation by "
-    "operation (insert, remove, get_mut with in-place change, get_mut_or_default, drain, the entry API, deletion of entities, clear / Drop of a storage - and as one theorem for every operation of the Storage API): the values held afterwards, "
-    "handed back and destroyed are, as multisets, the values held before plus those moved in, for every kind without "
-    "default-filled gaps and both wrappers. Partial: the composition of these equations over whole histories (and "
-    "DefaultVecStorage's gap values) is evaluated per history by the check, not "
-    "proved as one theorem; destructor panics are C19.",
-    "5.C08")
+    "the values destroyed by each operation equal the specification's. The ledger equation is proved (over multisets of "
+    "values): operation by operation for the whole Storage API (insert, remove, get_mut, get_mut_or_default, drain, entry "
+    "API, clear / Drop - VecStorage, DenseVecStorage, the map storages and the null storage, both wrappers), for entity "
+    "deletion, and over whole histories of the specification world (every storage the plain map, with which the "
+    "implementation's results and destroyed values are compared on every explored history): for every history without "
+    "join operations in which components are registered before use, what the world holds at the end, everything handed "
+    "back and everything destroyed along the way are what it held at the start plus everything moved in; hence from the "
+    "empty world to the dropped world every value moved in is handed back or destroyed exactly once. Partial: histories "
+    "with joins are covered by the cell-level theorems of C06 (a drain removes exactly the visited components) rather than "
+    "by the history theorem; DefaultVecStorage's gap values are accounted by the per-history ledger; destructor panics are "
+    "C19.", "5.C08")
 claimed["C20"] = (
     "The models are Gallina functions of the history, so whatever they compute depends on nothing else; the theorems "
     "(closed under the global context) show that the orders do not come from anywhere but membership: two sets with the "
